@@ -267,17 +267,28 @@ class Gen:
             tp = tuple(ctparams) + (tuple(t[1]) if t else ())
             self.count('ctor')
             return ('ctor', t, cname, self.args(tp, True))
+        names = self.__dict__.setdefault('class_member_names', {'method': [], 'static': []})
         if x < 0.5:
             t = self.opt_template(ctparams)
             tp = tuple(ctparams) + (tuple(t[1]) if t else ())
             self.count('method')
-            return ('method', t, self.method_name(), self.ret(tp, True), self.args(tp, True),
-                    r.random() < 0.5)
+            if names['method'] and r.random() < 0.25:
+                nm = r.choice(names['method'])      # an overload: same name, own signature and return shape
+                self.count('method_overload')
+            else:
+                nm = self.method_name()
+            names['method'].append(nm)
+            return ('method', t, nm, self.ret(tp, True), self.args(tp, True), r.random() < 0.5)
         if x < 0.65:
             t = self.opt_template(ctparams)
             tp = tuple(ctparams) + (tuple(t[1]) if t else ())
             self.count('static')
-            return ('static', t, self.method_name(), self.ret(tp, True), self.args(tp, True))
+            if names['static'] and r.random() < 0.25:
+                nm = r.choice(names['static'])
+            else:
+                nm = self.method_name()
+            names['static'].append(nm)
+            return ('static', t, nm, self.ret(tp, True), self.args(tp, True))
         if x < 0.78:
             self.count('property')
             return ('var', self.any_type(2, ctparams, True), self.ident(ARG_IDS),
@@ -323,6 +334,7 @@ class Gen:
             base = ('bn', ('tn', self.path(), self.ident(PLAIN_IDS), []))
         elif x < 0.3:
             base = ('bt', self.templated_type(2, tp)[:4] + (False, ''))
+        self.class_member_names = {'method': [], 'static': []}
         members = [self.member(name, tp) for _ in range(r.randint(0, self.p.max_members))]
         self.count('class')
         return ('class', t, r.random() < 0.25, name, base, members)
@@ -332,8 +344,14 @@ class Gen:
         t = self.template() if r.random() < self.p.p_template else None
         tp = tuple(t[1]) if t else ()
         self.count('function')
-        return ('fun', t, self.method_name() if r.random() < 0.3 else self.fresh(set(), METHOD_IDS),
-                self.ret(tp), self.args(tp))
+        scope = self.__dict__.setdefault('scope_funs', [[]])[-1]
+        if scope and r.random() < 0.3:
+            name = r.choice(scope)          # an overload of an earlier function of this scope, adjacent or not
+            self.count('function_overload')
+        else:
+            name = self.method_name() if r.random() < 0.3 else self.fresh(set(), METHOD_IDS)
+        scope.append(name)
+        return ('fun', t, name, self.ret(tp), self.args(tp))
 
     def decl(self, depth, used_names, templates_here):
         r = self.r
@@ -368,6 +386,13 @@ class Gen:
         return None  # typedef decided by the caller (needs a target)
 
     def content(self, depth):
+        self.__dict__.setdefault('scope_funs', [[]]).append([])
+        try:
+            return self._content(depth)
+        finally:
+            self.scope_funs.pop()
+
+    def _content(self, depth):
         r = self.r
         used = set()
         templates_here = []
